@@ -516,6 +516,11 @@ func (its *jsonPrimitive) InsertLocalInArray(
 	errors.OrdaError, // error
 ) {
 	if parentArray, ok := its.findJSONArray(parent); ok {
+		// validated again under the datatype's lock: the array may have changed since the
+		// public method looked at it
+		if err := parentArray.validateInsertPosition(pos); err != nil {
+			return nil, nil, err
+		}
 		target, _, err := parentArray.insertCommon(pos, nil, ts, values...)
 		return target, parentArray, err
 	}
@@ -542,6 +547,9 @@ func (its *jsonPrimitive) UpdateLocalInArray(
 	values ...interface{},
 ) ([]*model.Timestamp, []jsonType, errors.OrdaError) {
 	if parentArray, ok := its.findJSONArray(parent); ok {
+		if err := parentArray.validateGetRange(pos, len(values)); err != nil {
+			return nil, nil, err
+		}
 		return parentArray.updateLocal(pos, ts, values...)
 	}
 	return nil, nil, errors.DatatypeInvalidParent.New(its.getLogger(), parent.ToString())
@@ -565,6 +573,9 @@ func (its *jsonPrimitive) DeleteLocalInArray(
 	ts *model.Timestamp,
 ) ([]*model.Timestamp, []jsonType, errors.OrdaError) {
 	if parentArray, ok := its.findJSONArray(parent); ok {
+		if err := parentArray.validateGetRange(pos, numOfNodes); err != nil {
+			return nil, nil, err
+		}
 		t, j := parentArray.deleteLocal(pos, numOfNodes, ts)
 		return t, j, nil
 	}
